@@ -245,6 +245,7 @@ def _merge(into, st):
     into["skipped"] += st["skipped"]
     into["model_failed"] += st["model_failed"]
     into["min_margin"] = min(into["min_margin"], st["min_margin"])
+    into.setdefault("mutated", []).extend(st.get("mutated", []))
 
 
 def _dyadic(verts, p):
@@ -559,6 +560,241 @@ def lattice_near_level_case(idx, tol):
     return {"contour": vs, "points": pts, "tol": tol, "stream": "near-level lattice", "shape": f"n={len(vs)}"}
 
 
+# ----------------------------------------------------------------------------- remove_cutout with several outlines
+FLAGS = ((True, True), (True, False), (False, True), (False, False))
+CLASS_NAME = {1: "inside", 0: "on-contour", -1: "outside"}
+
+
+def _shape_outline(rng, prev):
+    """One outline with integer vertices in [0, 9]^2; with a previous outline, often sharing an edge or a corner."""
+    k = rng.random()
+    if prev is not None and k < 0.3:
+        # triangle or rectangle standing on an edge of the previous outline (touching along that edge)
+        i = rng.randrange(len(prev))
+        a, b = prev[i - 1], prev[i]
+        if a[1] == b[1] and a[0] != b[0]:
+            h = rng.choice([-3, -2, 2, 3, 4])
+            if rng.random() < 0.5:
+                return [a, b, ((a[0] + b[0]) // 2, a[1] + h)]
+            return [a, b, (b[0], b[1] + h), (a[0], a[1] + h)]
+        if a[0] == b[0] and a[1] != b[1]:
+            h = rng.choice([-3, -2, 2, 3, 4])
+            return [a, b, (b[0] + h, b[1]), (a[0] + h, a[1])]
+    if k < 0.75:
+        x0, y0 = rng.randint(0, 6), rng.randint(0, 6)
+        w, h = rng.randint(2, 6), rng.randint(2, 6)
+        return [(x0, y0), (x0 + w, y0), (x0 + w, y0 + h), (x0, y0 + h)]
+    for _ in range(200):
+        n = rng.choice([3, 4, 5])
+        vs = [LAT[i] for i in rng.sample(range(16), n)]
+        if is_simple(vs):
+            f, ox, oy = rng.choice([1, 2]), rng.randint(0, 3), rng.randint(0, 3)
+            return [(f * x + ox, f * y + oy) for x, y in vs]
+    return [(0, 0), (4, 0), (4, 4), (0, 4)]
+
+
+def gen_outline_set(rng):
+    n = rng.choice([2, 2, 3])
+    outs = []
+    for _ in range(n):
+        o = _shape_outline(rng, outs[-1] if outs and rng.random() < 0.8 else None)
+        if rng.random() < 0.5:
+            o = o[::-1]
+        outs.append([(int(x), int(y)) for x, y in o])
+    xs = [v[0] for o in outs for v in o]
+    ys = [v[1] for o in outs for v in o]
+    pts = [(x / 2.0, y / 2.0) for x in range(2 * min(xs) - 2, 2 * max(xs) + 3) for y in range(2 * min(ys) - 2, 2 * max(ys) + 3)]
+    if len(pts) > 450:
+        pts = rng.sample(pts, 450)
+    k = rng.random()
+    tol = None if k < 0.5 else (TOL_CUTOUT if k < 0.8 else TOL_DEFAULT)   # None: remove_cutout's own default
+    return {"outlines": outs, "points": pts, "tol": tol, "container": rng.choice(["list", "list", "tuple", "ndarray-float"])}
+
+
+def _contain(outline, kind):
+    import numpy as np
+    if kind == "tuple":
+        return tuple((float(x), float(y)) for x, y in outline)
+    if kind == "ndarray-float":
+        return np.array(outline, dtype=float)
+    if kind == "ndarray-int":
+        return np.array(outline, dtype=np.int64)
+    if kind == "list-of-tuples":
+        return [(float(x), float(y)) for x, y in outline]
+    return [[float(x), float(y)] for x, y in outline]
+
+
+def cutout_worker(job):
+    """remove_cutout with 2-3 overlapping / touching outlines, every listing order, all four flag combinations.
+    Expected (reading taken from the unchanged loop: every outline is classified, `inside in results` is tested before
+    `on_edge in results`): a point is inside if it is inside ANY outline, on-contour if it is on the contour of some
+    outline and inside none, outside otherwise; remove_inside keeps outside (+ on-contour if keep_contour), otherwise
+    inside (+ on-contour if keep_contour); order of the coordinates preserved; independent of the listing order."""
+    from itertools import permutations as perms
+    from ghedesigner.feature_recognition import remove_cutout
+    st = _new_stats()
+    lines, line_of = [], {}
+    results = []
+    for ci, case in enumerate(job):
+        outs = [[(int(x), int(y)) for x, y in o] for o in case["outlines"]] if all(
+            float(x) == int(x) and float(y) == int(y) for o in case["outlines"] for x, y in o) else None
+        tol_f = TOL_CUTOUT if case["tol"] is None else case["tol"]
+        # exact per-outline classes (coordinates doubled: integers), near-boundary points dropped from the query
+        pts, classes = [], []
+        for p in case["points"]:
+            cl, ok = [], True
+            for o in case["outlines"]:
+                if outs is not None and 2 * p[0] == int(2 * p[0]) and 2 * p[1] == int(2 * p[1]):
+                    e, inf = oracle([(2 * int(x), 2 * int(y)) for x, y in o], (int(2 * p[0]), int(2 * p[1])), 2 * Fraction(tol_f))
+                    inf["margin"] /= 2
+                else:
+                    e, inf = oracle([(Fraction(x), Fraction(y)) for x, y in o], (Fraction(p[0]), Fraction(p[1])), Fraction(tol_f))
+                if inf["undecided"] or inf["margin"] < NEAR or (inf["kind"] in ("inside", "outside") and 0 < inf["cmin"] < NEAR):
+                    ok = False
+                cl.append(e)
+            if ok:
+                pts.append([float(p[0]), float(p[1])])
+                classes.append(cl)
+            else:
+                st["skipped"] += 1
+        comb = [1 if 1 in cl else (0 if 0 in cl else -1) for cl in classes]
+        n_out = len(case["outlines"])
+        orders = list(perms(range(n_out))) if "order" not in case else [tuple(case["order"])]
+        if _USE_MODEL:
+            for ri, kc in FLAGS:
+                line_of[(ci, ri, kc)] = len(lines)
+                lines.append(f"rco {int(ri)} {int(kc)} {rs(tol_f)} M {n_out} "
+                             + " ".join(f"{len(o)} " + " ".join(f"{rs(x)} {rs(y)}" for x, y in o) for o in case["outlines"])
+                             + f" {len(pts)} " + " ".join(f"{rs(x)} {rs(y)}" for x, y in pts))
+        for order in orders:
+            for ri, kc in FLAGS:
+                bounds = [_contain(case["outlines"][i], case.get("container", "list")) for i in order]
+                args = dict(remove_inside=ri, keep_contour=kc)
+                if case["tol"] is not None:
+                    args["on_edge_tolerance"] = case["tol"]
+                try:
+                    got = [[float(g[0]), float(g[1])] for g in remove_cutout([list(q) for q in pts], bounds, **args)]
+                except Exception as e:  # noqa: BLE001
+                    got = f"raise {type(e).__name__}: {e}"
+                if ri:
+                    want = [q for q, c in zip(pts, comb) if c == -1 or (c == 0 and kc)]
+                else:
+                    want = [q for q, c in zip(pts, comb) if c == 1 or (c == 0 and kc)]
+                st["n"] += len(pts) * n_out
+                st["hist"][f"remove_cutout multi-outline: {n_out} outlines, remove_inside={ri} keep_contour={kc}, {case.get('container', 'list')}"] += 1
+                results.append((ci, order, ri, kc, got))
+                if got != want and len(st["bad_pred"]) < 20:
+                    if isinstance(got, str):
+                        sig, q, detail = "raises", None, got
+                    else:
+                        gs, ws = {tuple(g) for g in got}, {tuple(w) for w in want}
+                        wk = [q for q in got if tuple(q) not in ws]
+                        wd = [q for q in want if tuple(q) not in gs]
+                        q = (wk or wd or [None])[0]
+                        if q is None:
+                            sig, detail = "order-or-duplicates", "same set, different sequence"
+                        else:
+                            cl = [classes[pts.index(q)][i] for i in order]
+                            sig = ("wrongly-kept" if wk else "wrongly-dropped") + "-" + "+".join(
+                                sorted({CLASS_NAME[c] for c in cl if c != -1}) or ["outside-all"])
+                            detail = (f"point {q} has per-outline classes {cl} in listing order (combined "
+                                      f"{CLASS_NAME[comb[pts.index(q)]]}) and is {'kept' if wk else 'dropped'}")
+                    st["bad_pred"].append({
+                        "kind": "remove_cutout_multi", "key": f"remove-cutout-multi-ri={ri}-kc={kc}-{sig}",
+                        "what": (f"remove_cutout(remove_inside={ri}, keep_contour={kc}, on_edge_tolerance={case['tol'] if case['tol'] is not None else 'default'}) "
+                                 f"with outlines {[case['outlines'][i] for i in order]} ({case.get('container', 'list')}): {detail}; "
+                                 f"kept {len(got) if not isinstance(got, str) else got} of {len(pts)} points, expected {len(want)}"),
+                        "outlines": case["outlines"], "order": list(order), "points": pts, "witness": q, "tol": case["tol"],
+                        "container": case.get("container", "list"), "remove_inside": ri, "keep_contour": kc,
+                        "impl": got if isinstance(got, str) else len(got), "expected": len(want)})
+        for cl in comb:
+            st["hist"][f"remove_cutout multi-outline points: {CLASS_NAME[cl]}"] += 1
+        for cl in classes:
+            if 0 in cl and 1 in cl:
+                st["hist"]["remove_cutout multi-outline points: on the contour of one outline and inside another"] += 1
+    out = run_driver(lines) if _USE_MODEL else None
+    if _USE_MODEL and out is None:
+        st["model_failed"] += 1
+    if out is not None:
+        for ci, order, ri, kc, got in results:
+            o = out[line_of[(ci, ri, kc)]]
+            if not o.startswith("ok"):
+                if o in ("bad-op", "bad-arg"):
+                    st["hist"]["remove_cutout multi-outline: model command unavailable"] += 1
+                    continue
+                model = o
+            else:
+                body = o[2:].strip()
+                model = [] if body in ("", "_") else [[float(core.pr(t.split(",")[0])), float(core.pr(t.split(",")[1]))] for t in body.split()]
+            if model != got and len(st["bad_corr"]) < 20:
+                st["bad_corr"].append({"stream": "remove_cutout multi-outline", "outlines": job[ci]["outlines"], "order": list(order),
+                                       "remove_inside": ri, "keep_contour": kc, "tol": job[ci]["tol"],
+                                       "impl": got if isinstance(got, str) else len(got), "model": model if isinstance(model, str) else len(model)})
+    return st
+
+
+# ----------------------------------------------------------------------------- call history / argument types
+def _snapshot(obj):
+    import numpy as np
+    if isinstance(obj, np.ndarray):
+        return ("ndarray", obj.dtype.str, obj.shape, obj.tobytes())
+    return (type(obj).__name__, tuple((type(v).__name__, tuple((type(x).__name__, float(x).hex()) for x in v)) for v in obj))
+
+
+def history_worker(job):
+    """The same contour OBJECT is classified several times (list of lists, list of tuples, tuple of tuples, float ndarray,
+    int ndarray); every answer is judged by the oracle on the ORIGINAL coordinates and the caller's object must be bitwise
+    unchanged after every call."""
+    import numpy as np
+    ppc = _impl()
+    st = _new_stats()
+    for case in job:
+        vf = [(float(x), float(y)) for x, y in case["contour"]]
+        tol = case["tol"]
+        vq = [(Fraction(x), Fraction(y)) for x, y in vf]
+        pts = [(float(x), float(y)) for x, y in case["points"]]
+        res = [oracle(vq, (Fraction(p[0]), Fraction(p[1])), Fraction(tol)) for p in pts]
+        integral = all(x == int(x) and y == int(y) for x, y in vf)
+        kinds = case.get("containers") or (["list", "list-of-tuples", "tuple", "ndarray-float"] + (["ndarray-int"] if integral else []))
+        for kind in kinds:
+            obj = _contain(vf, kind)
+            snap = _snapshot(obj)
+            modified_at = None
+            hist = []
+            st["hist"][f"call history: contour as {kind}"] += 1
+            for k, p in enumerate(pts):
+                arg = p if k % 3 == 0 else (list(p) if k % 3 == 1 else np.array(p))
+                try:
+                    got = int(ppc(obj, arg, on_edge_tolerance=tol))
+                except Exception as e:  # noqa: BLE001
+                    got = f"raise {type(e).__name__}: {e}"
+                hist.append({"point": list(p), "impl": got, "expected": res[k][0]})
+                st["n"] += 1
+                if modified_at is None and _snapshot(obj) != snap:
+                    modified_at = k
+                inf = res[k][1]
+                if inf["undecided"] or inf["margin"] < NEAR or (inf["kind"] in ("inside", "outside") and 0 < inf["cmin"] < NEAR):
+                    st["skipped"] += 1
+                    continue
+                if got != res[k][0] and len(st["bad_pred"]) < 20:
+                    after = modified_at is not None and modified_at < k
+                    st["bad_pred"].append({
+                        "kind": "history", "key": f"ppc-history-{kind}-" + ("wrong-after-input-modified-in-place" if after else
+                                                                            f"expected{res[k][0]}-got{got if isinstance(got, int) else 'raise'}"),
+                        "what": (f"call {k + 1} on the same {kind} contour {[list(v) for v in vf]}: point_polygon_check(contour, {list(p)}, "
+                                 f"on_edge_tolerance={tol}) = {got}, expected {res[k][0]}"
+                                 + (f"; call {modified_at + 1} modified the caller's contour in place (now "
+                                    f"{np.asarray(obj).tolist()})" if after else "")),
+                        "contour": [list(v) for v in vf], "contour_type": kind, "tol": tol, "points": [list(q) for q in pts[:k + 1]],
+                        "calls": hist[:k + 1], "input_modified_by_call": None if modified_at is None else modified_at + 1})
+                    break
+            if modified_at is not None:
+                st["hist"][f"call history: caller's {kind} contour modified in place"] += 1
+                st.setdefault("mutated", []).append({"contour_type": kind, "contour": [list(v) for v in vf], "tol": tol,
+                                                    "after_call": modified_at + 1, "point": list(pts[modified_at])})
+    return st
+
+
 # ----------------------------------------------------------------------------- corpus / replay
 def load_corpus():
     cases = []
@@ -578,6 +814,11 @@ def load_corpus():
 def replay_case(path):
     d = json.loads(open(path).read())
     r = d.get("replay", d)
+    if r.get("kind") == "remove_cutout_multi":
+        return {"replay_kind": "cutout", "outlines": r["outlines"], "order": r["order"], "points": r["points"], "tol": r["tol"],
+                "container": r.get("container", "list")}
+    if r.get("kind") == "history":
+        return {"replay_kind": "history", "contour": r["contour"], "points": r["points"], "tol": r["tol"], "containers": [r["contour_type"]]}
     pts = r.get("points") or [r["point"]]
     return {"contour": r["contour"], "points": pts, "tol": r.get("tol", TOL_DEFAULT), "stream": "replay", "shape": "replay",
             "cutout": r.get("kind") == "remove_cutout"}
@@ -598,7 +839,10 @@ def run(ctx: core.Ctx):
                 "vertices, both orientations, points uniform / level with a vertex / on a vertex / on an edge / around the band edge / "
                 "collinear beyond an edge end; near-level streams (every tier): for every random polygon (2 vertices) and a seeded sample of "
                 "lattice polygons (every vertex level) points whose y is 1 ulp, 1e-12, 1e-10, 1e-8 above / below the vertex level (never equal), "
-                "x left of / right of the outline, beside the vertex and between consecutive crossings; a case = one (vertex sequence, tolerance) with all its points, distinct = distinct such "
+                "x left of / right of the outline, beside the vertex and between consecutive crossings; remove_cutout multi-outline stream: 2-3 "
+                "overlapping / touching integer outlines (lists, tuples or float ndarrays), every listing order, all four (remove_inside, "
+                "keep_contour) combinations, half-integer points of the joint bounding box; call-history stream: the same contour object "
+                "(list / tuples / float ndarray / int ndarray) queried 10 times, caller's object compared bitwise after each call; a case = one (vertex sequence, tolerance) with all its points, distinct = distinct such "
                 "pairs, non-trivial = all (each evaluates both loops on every point); evaluations = classifications")
     ctx.trusted_base += [
         "translator translate/gen_polygon.py (+ py2lean): per-edge decisions, return values, default tolerances of point_polygon_check; "
@@ -637,9 +881,10 @@ def run(ctx: core.Ctx):
     # ------------------------------------------------------------ replay only
     if ctx.replay:
         rc = replay_case(ctx.replay)
-        st = random_worker([rc])
+        worker = {"cutout": cutout_worker, "history": history_worker}.get(rc.get("replay_kind"), random_worker)
+        st = worker([rc])
         _merge(total, st)
-        ctx.case(("replay", json.dumps(rc["contour"]), rc["tol"]), True, {"replay": ctx.replay})
+        ctx.case(("replay", json.dumps(rc.get("contour", rc.get("outlines"))), rc["tol"]), True, {"replay": ctx.replay})
         ctx.cases += len(rc["points"]) - 1
         _report(ctx, total, polys=1)
         return
@@ -672,6 +917,48 @@ def run(ctx: core.Ctx):
     ctx.samples.append({"stream": "near-level lattice", "contour": nl_cases[0]["contour"], "tol": nl_cases[0]["tol"],
                         "points": nl_cases[0]["points"][:3]})
     phase("near-level lattice stream")
+    # ------------------------------------------------------------ call history / argument types (every tier)
+    h_rng = random.Random(ctx.seed * 32452843 + 16)
+    h_cases = []
+    for j in range(150 if ctx.tier == "quick" else 1500):
+        if j % 2 == 0:   # lattice polygon moved off the origin by an integer offset (int ndarray possible)
+            while True:
+                sidx = h_rng.sample(range(16), h_rng.choice([3, 4, 5]))
+                if is_simple([LAT[i] for i in sidx]):
+                    break
+            ox, oy = h_rng.choice([0, 3, 7, 40]), h_rng.choice([0, 2, 5, 100])
+            vs = [(float(LAT[i][0] + ox), float(LAT[i][1] + oy)) for i in sidx]
+            pts = [(x + ox, y + oy) for x, y in h_rng.sample(HALF_PTS, 8)]
+            tol = h_rng.choice([TOL_DEFAULT, TOL_CUTOUT])
+        else:
+            vs, _, _ = gen_polygon(h_rng)
+            tol = h_rng.choice([TOL_DEFAULT, TOL_CUTOUT])
+            pts = gen_points(h_rng, vs, tol, 8)
+        pts = pts + [pts[0], pts[1]]   # the first queries again at the end
+        h_cases.append({"contour": vs, "points": pts, "tol": tol})
+    for st in core.pool_map(history_worker, _chunks(h_cases, 64)):
+        _merge(total, st)
+    for c in h_cases:
+        ctx.case(("call history", tuple(c["contour"]), c["tol"]), True)
+        ctx.cases += len(c["points"]) - 1
+    ctx.samples.append({"stream": "call history", "contour": h_cases[0]["contour"], "tol": h_cases[0]["tol"], "points": h_cases[0]["points"][:3],
+                        "containers": "list of lists, list of tuples, tuple of tuples, float ndarray, int ndarray (integral vertices)"})
+    phase("call-history stream")
+    # ------------------------------------------------------------ remove_cutout with several outlines (every tier)
+    co_rng = random.Random(ctx.seed * 15485863 + 16)
+    co_cases = [gen_outline_set(co_rng) for _ in range(120 if ctx.tier == "quick" else 1500)]
+    for st in core.pool_map(cutout_worker, _chunks(co_cases, 64)):
+        _merge(total, st)
+    for c in co_cases:
+        ctx.case(("remove_cutout multi", json.dumps(c["outlines"]), c["tol"], c["container"]), True)
+    ctx.samples.append({"stream": "remove_cutout multi-outline", "outlines": co_cases[0]["outlines"], "tol": co_cases[0]["tol"],
+                        "container": co_cases[0]["container"], "points": f"{len(co_cases[0]['points'])} half-integer points",
+                        "orders": "every listing order", "flags": "all four (remove_inside, keep_contour)"})
+    ctx.extra["remove_cutout_multi_outline_reading"] = (
+        "expected result taken from the unchanged code's loop (every outline is classified for every coordinate, `inside in "
+        "boundary_results` is tested before `on_edge in boundary_results`): inside wins over on-contour across outlines, "
+        "independent of the listing order")
+    phase("remove_cutout multi-outline stream")
     # ------------------------------------------------------------ lattice stream (exhaustive)
     sizes = [3, 4] if ctx.tier == "quick" else [3, 4, 5, 6]
     lat_polys = []
@@ -774,10 +1061,16 @@ def _report(ctx, total, polys):
             ctx.broken.append("ppc-correspondence")
         ctx.extra["ppc_first_disagreement"] = total["bad_corr"][0]
         ctx.log("model/implementation disagreement:", json.dumps(total["bad_corr"][0]))
+    if total.get("mutated"):
+        ctx.extra["caller_contour_modified_in_place"] = total["mutated"][:3]
+        if not any(b.get("kind") == "history" for b in total["bad_pred"]) and "ppc-modifies-caller-contour" not in ctx.broken:
+            ctx.broken.append("ppc-modifies-caller-contour")   # history independence broken, no wrong classification found
     # predicate: one finding per failure signature
     seen = set()
     for b in total["bad_pred"]:
-        if b["kind"] == "remove_cutout":
+        if "key" in b:
+            key, what = b["key"], b["what"]
+        elif b["kind"] == "remove_cutout":
             key = f"remove-cutout-{b['align']}"
             what = (f"remove_cutout(remove_inside/keep_contour = {b['align']}) kept {len(b['impl'])} of {len(b['points'])} points, "
                     f"the crossing-number/band oracle at tol=0.01 keeps {len(b['expected'])}")
